@@ -58,26 +58,26 @@ func vC15Value(which int) (interface{}, map[string]string) {
 		return "hello", map[string]string{}
 	case 2:
 		v := &ZInner{N: vInt32("n"), S: "ab"}
-		_, nm := ExtractTypeNameMap(v)
+		_, nm := vExtract(v)
 		return v, nm
 	case 3:
 		v := []int32{1, vInt32("e"), 3}
-		_, nm := ExtractTypeNameMap(v)
+		_, nm := vExtract(v)
 		return v, nm
 	case 4:
 		v := map[string]int32{"a": 1}
-		_, nm := ExtractTypeNameMap(v)
+		_, nm := vExtract(v)
 		return v, nm
 	case 5:
 		in := &ZInner{N: 5, S: "x"}
 		v := &ZRefHolder{A: in, B: in, L: []int32{7}, M: map[string]int32{"k": 2}}
-		_, nm := ExtractTypeNameMap(v)
+		_, nm := vExtract(v)
 		return v, nm
 	case 6:
 		return []interface{}{nil, int32(1), "s"}, map[string]string{}
 	default:
 		v := &ZOuter{A: 1, In: ZInner{N: 2, S: "i"}, Z: 3}
-		_, nm := ExtractTypeNameMap(v)
+		_, nm := vExtract(v)
 		return v, nm
 	}
 }
